@@ -86,8 +86,8 @@ type ACLRow struct {
 }
 
 type OResp struct {
-	Sync bool  `json:"sync,omitempty"`
-	N    *Noti `json:"n,omitempty"`
+	Sync bool   `json:"sync,omitempty"`
+	N    *Noti  `json:"n,omitempty"`
 	Dup  uint32 `json:"dup,omitempty"`
 }
 
@@ -292,10 +292,10 @@ func (s *memStream) take() []OResp {
 // a polling goroutine, if any, is parked in the stream's Recv.
 
 type gstate struct {
-	senders, parkedSenders int
-	walkers                int
-	pollers, parkedPollers int
-	server                 int
+	server        int // goroutines with a frame of subscribe.(*Server)
+	blocked       int // of those: parked in a select or a channel receive
+	parkedSenders int // parked in the select of coalesce.Queue.Next
+	parkedPollers int // parked in the stream's Recv below processPollingSubscription
 }
 
 var stackBuf = make([]byte, 1<<20)
@@ -317,26 +317,19 @@ func goroutineStates() gstate {
 		if i := bytes.IndexByte(head, '['); i >= 0 {
 			st = string(head[i+1:])
 		}
-		if bytes.Contains(body, []byte("coalesce.(*Queue).Next(")) || bytes.Contains(body, []byte("(*Server).sendStreamingResults(")) {
-			g.senders++
-			if bytes.Contains(body, []byte("coalesce.(*Queue).Next(")) && strings.HasPrefix(st, "select") {
-				g.parkedSenders++
-			}
+		sel, rcv := strings.HasPrefix(st, "select"), strings.HasPrefix(st, "chan receive")
+		if sel || rcv {
+			g.blocked++
 		}
-		if bytes.Contains(body, []byte("(*Server).processSubscription(")) {
-			g.walkers++
+		if sel && bytes.Contains(body, []byte("coalesce.(*Queue).Next(")) {
+			g.parkedSenders++
 		}
-		if bytes.Contains(body, []byte("(*Server).processPollingSubscription(")) {
-			g.pollers++
-			if strings.HasPrefix(st, "chan receive") && bytes.Contains(body, []byte("(*memStream).Recv(")) {
-				g.parkedPollers++
-			}
+		if rcv && bytes.Contains(body, []byte("(*Server).processPollingSubscription(")) && bytes.Contains(body, []byte("(*memStream).Recv(")) {
+			g.parkedPollers++
 		}
 	}
 	return g
 }
-
-type waiter struct{ deadline time.Duration }
 
 func pause(i int) {
 	if i < 50 {
@@ -359,11 +352,12 @@ func settle(done <-chan struct{}, limit time.Duration) bool {
 		g := goroutineStates()
 		if returned {
 			// only a poller parked in Recv may be left
-			if g.senders == 0 && g.walkers == 0 && g.server == g.parkedPollers {
+			if g.server == g.parkedPollers {
 				return true
 			}
-		} else if g.senders == 1 && g.parkedSenders == 1 && g.walkers == 0 && g.pollers == g.parkedPollers {
-			// the Subscribe goroutine itself is parked on errC; make sure the state is stable
+		} else if g.server > 0 && g.server == g.blocked && g.parkedSenders == 1 {
+			// every goroutine of the RPC (Subscribe on errC, sender, its timer
+			// goroutine, a poller) is parked and the sender waits for an item
 			select {
 			case <-done:
 				continue
@@ -886,3 +880,228 @@ func el(n string, kv ...string) Elem {
 }
 
 func strp(s string) *string { return &s }
+
+// ---------------------------------------------------------------------------
+// cache content generator (shared)
+
+type gen struct {
+	r  *vh.Rand
+	ts int64
+	// origins the data of this case uses (weights none / oc / foo)
+	ow [3]int
+}
+
+func newGen(r *vh.Rand) *gen {
+	g := &gen{r: r}
+	switch r.Pick(4, 3, 3) {
+	case 0:
+		g.ow = [3]int{10, 0, 0}
+	case 1:
+		g.ow = [3]int{1, 8, 1}
+	default:
+		g.ow = [3]int{5, 4, 1}
+	}
+	return g
+}
+
+func (g *gen) nextTS() int64 {
+	if g.ts > 0 && g.r.Chance(1, 40) {
+		return g.ts // same timestamp again: the stale / "different value at same timestamp" branches
+	}
+	g.ts += 1 + int64(g.r.Intn(3))
+	return g.ts
+}
+
+// leaf paths of a small prefix-free schema (keyed lists with one and two keys,
+// the two-key list once with its keys given in reverse name order)
+var schema = [][]Elem{
+	{el("a"), el("b")}, {el("a"), el("c")}, {el("a"), el("a")},
+	{el("b", "k", "1"), el("a")}, {el("b", "k", "1"), el("c")}, {el("b", "k", "2"), el("a")},
+	{el("c", "x", "1", "y", "2"), el("b")}, {el("c", "y", "1", "x", "2"), el("b")},
+	{el("b"), el("c"), el("a"), el("b")},
+}
+
+// containers stored as one atomic leaf
+var containers = [][]Elem{{el("d")}, {el("e"), el("a")}, {el("e"), el("b", "k", "1")}}
+
+var dataElems = []Elem{el("a"), el("b"), el("c"), el("b", "k", "1"), el("b", "k", "2"), el("c", "x", "1", "y", "2"), el("d")}
+var queryElems = []Elem{el("a"), el("b"), el("c"), el("*"), el("b", "k", "1"), el("b", "k", "*"), el("c", "x", "1", "y", "2"), el("c", "x", "*", "y", "2"), el("*", "k", "2"), el("d"), el("e")}
+
+func (g *gen) origin(wNone, wOc, wFoo int) string {
+	return []string{"", "oc", "foo"}[g.r.Pick(wNone, wOc, wFoo)]
+}
+
+func (g *gen) dataOrigin() string { return g.origin(g.ow[0], g.ow[1], g.ow[2]) }
+
+func (g *gen) dataPath(min, max int) []Elem {
+	n := min + g.r.Intn(max-min+1)
+	out := make([]Elem, n)
+	for i := range out {
+		out[i] = dataElems[g.r.Pick(6, 5, 4, 3, 2, 2, 1)]
+	}
+	return out
+}
+
+// leafPath: a schema leaf (mostly), or an arbitrary path that may collide with
+// stored leaves or branches
+func (g *gen) leafPath() []Elem {
+	if g.r.Chance(1, 12) {
+		return g.dataPath(1, 3)
+	}
+	return append([]Elem{}, schema[g.r.Intn(len(schema))]...)
+}
+
+func (g *gen) randomQueryPath(max int) []Elem {
+	n := g.r.Intn(max + 1)
+	out := make([]Elem, n)
+	for i := range out {
+		out[i] = queryElems[g.r.Pick(6, 5, 3, 6, 2, 1, 1, 1, 1, 2, 1)]
+	}
+	return out
+}
+
+// queryPath: a stored name cut to any length with globs put at any position
+// (element names, key values), or an arbitrary one
+func (g *gen) queryPath(max int) []Elem {
+	r := g.r
+	if r.Chance(1, 4) {
+		return g.randomQueryPath(max)
+	}
+	var base []Elem
+	if r.Chance(1, 6) {
+		base = append([]Elem{}, containers[r.Intn(len(containers))]...)
+	} else {
+		base = append([]Elem{}, schema[r.Intn(len(schema))]...)
+	}
+	n := r.Pick(1, 2, 4, 3, 2)
+	if n > len(base) {
+		n = len(base)
+	}
+	if n > max {
+		n = max
+	}
+	base = base[:n]
+	for i := range base {
+		switch r.Pick(6, 2, 1) {
+		case 1:
+			base[i] = el("*")
+		case 2:
+			if len(base[i].Keys) > 0 {
+				ks := append([][2]string{}, base[i].Keys...)
+				ks[r.Intn(len(ks))][1] = "*"
+				base[i] = Elem{Name: base[i].Name, Keys: ks}
+			} else {
+				base[i] = el("*")
+			}
+		}
+	}
+	if r.Chance(1, 10) {
+		base = append(base, el("*"))
+	}
+	return base
+}
+
+func samePath(a, b []Elem) bool { return fmt.Sprint(a) == fmt.Sprint(b) }
+
+// split moves the first k elements of a path into the prefix
+func (g *gen) split(n *Noti, p []Elem) []Elem {
+	if len(p) > 1 && len(n.Prefix.Elems) == 0 && g.r.Chance(1, 3) {
+		k := 1 + g.r.Intn(len(p)-1)
+		n.Prefix.Elems = p[:k]
+		return p[k:]
+	}
+	return p
+}
+
+// dataNoti makes one notification for target t: a single update, several
+// updates (and deletes), an atomic container, or a delete.
+func (g *gen) dataNoti(t string, pathOrigins bool) *Noti {
+	r := g.r
+	n := &Noti{TS: g.nextTS(), Prefix: GPath{Target: t, Origin: g.dataOrigin()}}
+	val := func() int64 { return int64(r.Intn(4)) }
+	switch r.Pick(52, 15, 13, 20) {
+	case 0:
+		p := g.split(n, g.leafPath())
+		u := Upd{Path: GPath{Elems: p}, Val: val()}
+		if pathOrigins && n.Prefix.Origin == "" && len(n.Prefix.Elems) == 0 && r.Chance(1, 4) {
+			u.Path.Origin = g.origin(0, 2, 1)
+		}
+		n.Upds = []Upd{u}
+	case 1:
+		// several leaves below one prefix element
+		first := g.leafPath()
+		n.Prefix.Elems = first[:1]
+		k := 2 + r.Intn(2)
+		for tries := 0; len(n.Upds) < k && tries < 20; tries++ {
+			p := g.leafPath()
+			if !samePath(p[:1], first[:1]) || len(p) < 2 {
+				continue
+			}
+			dupl := false
+			for _, o := range n.Upds {
+				if samePath(o.Path.Elems, p[1:]) {
+					dupl = true
+				}
+			}
+			if !dupl {
+				n.Upds = append(n.Upds, Upd{Path: GPath{Elems: p[1:]}, Val: val()})
+			}
+		}
+		if len(n.Upds) == 0 {
+			n.Upds = []Upd{{Path: GPath{Elems: first[1:]}, Val: val()}}
+		}
+		if r.Chance(1, 3) {
+			n.Dels = []GPath{{Elems: g.leafPath()[1:]}}
+		}
+	case 2:
+		n.Atomic = true
+		n.Prefix.Elems = append([]Elem{}, containers[r.Intn(len(containers))]...)
+		k := 1 + r.Intn(3)
+		for i := 0; i < k; i++ {
+			n.Upds = append(n.Upds, Upd{Path: GPath{Elems: g.dataPath(1, 2)}, Val: val()})
+		}
+	case 3:
+		var d []Elem
+		switch r.Pick(5, 2, 1) {
+		case 0:
+			d = g.leafPath()
+			d = d[:1+r.Intn(len(d))]
+		case 1:
+			d = append([]Elem{}, containers[r.Intn(len(containers))]...)
+		default:
+			d = g.dataPath(0, 2)
+		}
+		for i := range d {
+			if r.Chance(1, 5) {
+				d[i] = el("*")
+			}
+		}
+		d = g.split(n, d)
+		if len(d) == 0 && len(n.Prefix.Elems) == 0 && n.Prefix.Origin == "" {
+			d = []Elem{el("*")}
+		}
+		n.Dels = []GPath{{Elems: d}}
+	}
+	return n
+}
+
+func (g *gen) cacheStep(targets []string, pathOrigins bool, allowRemove bool) Step {
+	t := targets[g.r.Intn(len(targets))]
+	if allowRemove && g.r.Chance(1, 25) {
+		g.ts++
+		return Step{K: "remove", Target: t, Now: g.ts}
+	}
+	if g.r.Chance(1, 60) {
+		t = "tx" // unknown target: GnmiUpdate returns an error
+	}
+	return Step{K: "update", N: g.dataNoti(t, pathOrigins)}
+}
+
+// subOrigins chooses the origin of the request prefix and of one subscription
+// path so that it mostly agrees with the data of the case.
+func (g *gen) requestOrigin() string {
+	if g.r.Chance(1, 8) {
+		return g.origin(1, 1, 1)
+	}
+	return g.dataOrigin()
+}
